@@ -232,6 +232,7 @@ Example C01_program_nonvacuous :
             SSet (OpList [Zone (NStr "strip") (RLit (LInt 1)) (Some (RVar "total")); Target TLight (NStr "a"); Zone (NVar "x") (RExpr (EBin BSub (EVar "total") (ELit (LInt 3)))) None]);
             SRepeat (LCount (RCall "sq" [RLit (LInt 2)])) (SBlock [SPrint (Some (RLit (LInt 7)))]);
             SRepeat (LCount (RExpr (EBin BSub (ECall "round" [RVar "total"]) (ELit (LInt 3))))) (SBlock [SPrintln (Some (RLit (LInt 8)))]);
+            SReg R_KELVIN (RReg R_KELVIN);
             SAssign "r" (RCall "round" [RVar "total"]); SPrintln (Some (RCall "floor" [RExpr (EBin BDiv (EVar "total") (ELit (LInt 2)))]));
             SReg R_HUE (RCall "sq" [RVar "total"]); SPrint (Some (RCall "sq" [RExpr (EBin BSub (EVar "total") (ELit (LInt 7)))]));
             SPrintln (Some (RVar "total"))] in
